@@ -80,7 +80,7 @@ def run(ctx):
             ctx.violation("C09.6", fi, node, f"PD [{case}] output.noise", "noise part is not LPF-filtered")
             continue
         ctx.check("C09.6", sos is not None and sos == sos2, fi, node, f"PD [{case}] same filter for signal and noise", "one sos for both", "signal and noise are filtered by different filters")
-        normals = [r for r in it.calls if r.callee == "numpy.random.normal" and r.depth == 0]
+        normals = [r for r in it.calls if r.callee == "numpy.random.normal"]     # at any depth: the draw may sit in a private helper or closure
         # expected terms
         i_sig_mean = pull_scalars(mk_fn("mean", [S("r") * isig]), scalar_atom)
         if noise == "notnone":
